@@ -292,8 +292,33 @@ def gen_random(cases, rng, n):
             cases.append((tok_case(extra), "random-tok"))
 
 
+def wide_token_lists():
+    """size only: tags with 17..40 attributes (hash-set / small-sort / inline-capacity thresholds in attribute handling):
+    two wide tags sharing their names, a real duplicate beyond position 17, same-named attributes under two prefixes of one
+    namespace, a declaration after ordinary attributes"""
+    out = []
+    for n in (16, 17, 18, 19, 20, 21, 22, 24, 33, 40):
+        names = ["a%d" % i for i in range(n)]
+        a1 = [(x, "1") for x in names]
+        a2 = [(x, "2") for x in reversed(names)]
+        out.append([("S", "r", [("xmlns:p", "urn:p"), ("xmlns:q", "urn:p")]), ("M", "first", a1),
+                    ("M", "second", a2 + [("a0", "dup"), ("a%d" % (n - 1), "dup2")]),
+                    ("M", "third", a1[:n - 1] + [("p:dup", "first"), ("q:dup", "second"), ("xmlns:z", "urn:z"), ("z:k", "v"),
+                                                 ("xmlns", "urn:d")]),
+                    ("S", "fourth", [("x", "0")] + [("xmlns:n%d" % i, "urn:n%d" % i) for i in range(n)] + [("n1:y", "1"), ("n%d:y" % (n - 1), "2")]),
+                    ("E", "fourth", []), ("E", "r", [])])
+    return out
+
+
+def gen_cover_wide(cases):
+    for toks in wide_token_lists():
+        cases.append((src_case(toks), "wide"))
+        cases.append((tok_case(toks), "wide"))
+
+
 def gen_cases(tier, rng):
     cases = []
+    gen_cover_wide(cases)
     gen_cover_attrs(cases)
     gen_cover_kinds(cases)
     gen_cover_nest(cases)
